@@ -361,4 +361,1032 @@ theorem inv_reach {n L : Nat} {s : State} (h : Reach n L s) : Inv s := by
   obtain ⟨as, rfl⟩ := h
   exact inv_run as (inv_init n L)
 
+
+/-! ## counting, slow cap, stranded work, event soundness, cancel -/
+
+/-! ## counting workers -/
+
+def cnt {α : Type} (p : α → Bool) (w : Nat → α) : Nat → Nat
+  | 0 => 0
+  | n + 1 => cnt p w n + (if p (w n) then 1 else 0)
+
+theorem cnt_upd_ge {α : Type} (p : α → Bool) (w : Nat → α) (t : Nat) (x : α) (n : Nat) (h : n ≤ t) :
+    cnt p (upd w t x) n = cnt p w n := by
+  induction n with
+  | zero => rfl
+  | succ n ih => simp only [cnt]; rw [ih (by omega)]; simp [upd, show n ≠ t by omega]
+
+theorem cnt_upd {α : Type} (p : α → Bool) (w : Nat → α) (t : Nat) (x : α) (n : Nat) (h : t < n) :
+    (cnt p (upd w t x) n : Int) = cnt p w n - (if p (w t) then 1 else 0) + (if p x then 1 else 0) := by
+  induction n with
+  | zero => omega
+  | succ n ih =>
+    simp only [cnt]
+    by_cases e : t = n
+    · subst e
+      rw [cnt_upd_ge p w t x t (Nat.le_refl t)]
+      simp only [upd_same]
+      split <;> split <;> omega
+    · have := ih (by omega)
+      rw [show upd w t x n = w n from upd_ne w t n x (fun h => e h.symm)]
+      push_cast
+      omega
+
+theorem cnt_le {α : Type} (p : α → Bool) (w : Nat → α) (n : Nat) : cnt p w n ≤ n := by
+  induction n with
+  | zero => simp [cnt]
+  | succ n ih => simp only [cnt]; split <;> omega
+
+theorem cnt_lt_exists {α : Type} (p : α → Bool) (w : Nat → α) (n : Nat) (h : cnt p w n < n) :
+    ∃ t, t < n ∧ p (w t) = false := by
+  induction n with
+  | zero => omega
+  | succ n ih =>
+    simp only [cnt] at h
+    by_cases e : p (w n) = true
+    · simp only [e, if_true] at h
+      obtain ⟨t, ht, hp⟩ := ih (by omega)
+      exact ⟨t, by omega, hp⟩
+    · exact ⟨n, by omega, by simpa using e⟩
+
+theorem cnt_zero_all {α : Type} (p : α → Bool) (w : Nat → α) (n : Nat) (h : ∀ t, t < n → p (w t) = true) :
+    cnt p w n = n := by
+  induction n with
+  | zero => rfl
+  | succ n ih => simp only [cnt]; rw [ih (fun t ht => h t (by omega)), h n (by omega)]; simp
+
+/-- occupied by slow I/O: from the dequeue of a slow item until the decrement (:106 … :137) -/
+def isSlow : WPhase → Bool
+  | .got _ true | .inwork _ true | .posted true => true
+  | _ => false
+
+/-- counted in idle_threads: from :76 until :78 -/
+def isIdle : WPhase → Bool
+  | .waiting | .woken => true
+  | _ => false
+
+structure Inv2 (s : State) : Prop where
+  slowEq : s.slowRun = cnt isSlow s.workers s.n
+  slowLe : s.slowRun ≤ threshold s.n
+  idleEq : s.idle = cnt isIdle s.workers s.n
+
+theorem upd_upd {α} (w : Nat → α) (t : Nat) (a b : α) : upd (upd w t a) t b = upd w t b := by
+  funext j; simp [upd]; split <;> rfl
+theorem upd_self {α} (w : Nat → α) (t : Nat) (a : α) (h : w t = a) : upd w t a = w := by
+  funext j; simp only [upd]; split
+  · rename_i e; rw [e, h]
+  · rfl
+
+theorem signal_cases' (s : State) (c : Nat) :
+    signal s c = s ∨ ∃ w, w < s.n ∧ s.workers w = .waiting ∧
+      signal s c = { s with workers := upd s.workers w .woken } := by
+  unfold signal
+  simp only []
+  split
+  · exact Or.inl rfl
+  · rename_i w hw
+    right
+    have : w ∈ waiters s := List.mem_of_getElem? hw
+    simp [waiters] at this
+    exact ⟨w, this.1, this.2, rfl⟩
+
+theorem inv2_signal {s : State} (c : Nat) (h : Inv2 s) : Inv2 (signal s c) := by
+  rcases signal_cases' s c with e | ⟨w, hw, hp, e⟩
+  · rw [e]; exact h
+  · rw [e]
+    have a := cnt_upd isSlow s.workers w .woken s.n hw
+    have b := cnt_upd isIdle s.workers w .woken s.n hw
+    simp only [hp, isSlow, isIdle] at a b
+    constructor
+    · simp only []; rw [a]; have := h.slowEq; simp; exact this
+    · exact h.slowLe
+    · simp only []; rw [b]; have := h.idleEq; simp; exact this
+
+theorem inv2_region {s : State} {t : Nat} (c : Nat) (hn : s.wq.Nodup) (ht : t < s.n)
+    (h1 : s.slowRun = cnt isSlow (upd s.workers t .start) s.n) (h2 : s.slowRun ≤ threshold s.n)
+    (h3 : s.idle = cnt isIdle (upd s.workers t .start) s.n) : Inv2 (doRegion s t c).1 := by
+  unfold doRegion
+  have sp := dq_spec (threshold s.n) s.slowRun (dqFuel s.wq) s.wq s.sq hn
+  have hf := dq_fuel (threshold s.n) s.slowRun (dqFuel s.wq) s.wq s.sq hn (by simp [dqFuel])
+  revert sp hf
+  generalize dqLoop (threshold s.n) s.slowRun (dqFuel s.wq) s.wq s.sq = o
+  intro sp hf
+  have ea : ∀ x p, (cnt p (upd s.workers t x) s.n : Int) =
+      cnt p (upd s.workers t .start) s.n - (if p .start then 1 else 0) + (if p x then 1 else 0) := by
+    intro x p
+    have := cnt_upd p (upd s.workers t .start) t x s.n ht
+    rw [upd_upd] at this
+    simpa using this
+  cases o with
+  | fuel => exact absurd rfl hf
+  | wait wq' sq' =>
+    simp only []
+    constructor
+    · simp only []; rw [ea]; simp [isSlow, h1]
+    · exact h2
+    · simp only []; rw [ea]; simp [isIdle, h3]
+  | take i slow wq' sq' sig =>
+    cases slow
+    · simp only [DqSpec] at sp
+      obtain ⟨-, e0, -⟩ := sp
+      subst e0
+      simp only [Bool.false_and, Bool.false_eq_true, ↓reduceIte]
+      constructor
+      · simp only []; rw [ea]; simp [isSlow, h1]
+      · exact h2
+      · simp only []; rw [ea]; simp [isIdle, h3]
+    · simp only [DqSpec] at sp
+      obtain ⟨-, hlt, -⟩ := sp
+      simp only [↓reduceIte]
+      split
+      · apply inv2_signal
+        constructor
+        · simp only []; rw [ea]; simp [isSlow, h1]
+        · simp only []; omega
+        · simp only []; rw [ea]; simp [isIdle, h3]
+      · constructor
+        · simp only []; rw [ea]; simp [isSlow, h1]
+        · simp only []; omega
+        · simp only []; rw [ea]; simp [isIdle, h3]
+
+
+theorem inv2_step {s s' : State} {a : Act} {evs : List Ev} (hI : Inv s) (h : Inv2 s)
+    (e : step s a = some (s', evs)) : Inv2 s' := by
+  unfold step at e
+  cases a with
+  | sub l k c =>
+    simp only [] at e
+    split at e
+    · simp only [Option.some.injEq] at e
+      unfold doSub at e
+      simp only [] at e
+      (repeat' split at e) <;> obtain ⟨rfl, rfl⟩ := Prod.mk.inj e <;> (try apply inv2_signal) <;>
+        exact ⟨h.slowEq, h.slowLe, h.idleEq⟩
+    · simp at e
+  | can l j =>
+    simp only [] at e
+    split at e
+    · simp only [Option.some.injEq] at e
+      unfold doCan1 at e
+      simp only [] at e
+      (repeat' split at e) <;> obtain ⟨rfl, rfl⟩ := Prod.mk.inj e <;> exact ⟨h.slowEq, h.slowLe, h.idleEq⟩
+    · simp at e
+  | go l =>
+    simp only [] at e
+    split at e
+    · split at e
+      · simp only [Option.some.injEq] at e
+        unfold doCan2 at e
+        simp only [] at e
+        (repeat' split at e) <;> obtain ⟨rfl, rfl⟩ := Prod.mk.inj e <;> exact ⟨h.slowEq, h.slowLe, h.idleEq⟩
+      · split at e
+        · simp at e
+        · simp only [Option.some.injEq] at e
+          unfold doReport at e
+          simp only [] at e
+          (repeat' split at e) <;> obtain ⟨rfl, rfl⟩ := Prod.mk.inj e <;> exact ⟨h.slowEq, h.slowLe, h.idleEq⟩
+    · simp at e
+  | drn l =>
+    simp only [] at e
+    split at e
+    · simp only [Option.some.injEq] at e
+      unfold doDrain at e
+      obtain ⟨rfl, rfl⟩ := Prod.mk.inj e
+      exact ⟨h.slowEq, h.slowLe, h.idleEq⟩
+    · simp at e
+  | wk t c =>
+    simp only [] at e
+    split at e
+    · rename_i ht
+      have es := cnt_upd isSlow s.workers t
+      have ei := cnt_upd isIdle s.workers t
+      have q1 := h.slowEq; have q2 := h.slowLe; have q3 := h.idleEq
+      unfold doWorker at e
+      split at e
+      · simp at e
+      · rename_i hp
+        simp only [Option.some.injEq] at e
+        rw [← fst_of_eq e]
+        exact inv2_region c hI.wqNd ht (by rw [upd_self _ _ _ hp]; exact q1) q2 (by rw [upd_self _ _ _ hp]; exact q3)
+      · rename_i hp
+        simp only [Option.some.injEq] at e
+        rw [← fst_of_eq e]
+        refine inv2_region c hI.wqNd ht ?_ q2 ?_
+        · simp only []; rw [es _ _ ht, hp]; simp [isSlow, q1]
+        · simp only []; rw [ei _ _ ht, hp]; simp [isIdle, q3]
+      · rename_i slow hp
+        simp only [Option.some.injEq] at e
+        rw [← fst_of_eq e]
+        refine inv2_region c hI.wqNd ht ?_ ?_ ?_
+        · simp only []; rw [es _ _ ht, hp]; cases slow <;> simp [isSlow, q1]
+        · simp only []; split <;> omega
+        · simp only []; rw [ei _ _ ht, hp]; simp [isIdle, q3]
+      · rename_i i slow hp
+        simp only [Option.some.injEq] at e
+        obtain ⟨rfl, rfl⟩ := Prod.mk.inj e
+        constructor
+        · simp only []; rw [es _ _ ht, hp]; cases slow <;> simp [isSlow, q1]
+        · exact q2
+        · simp only []; rw [ei _ _ ht, hp]; simp [isIdle, q3]
+      · rename_i i slow hp
+        simp only [Option.some.injEq] at e
+        obtain ⟨rfl, rfl⟩ := Prod.mk.inj e
+        constructor
+        · simp only []; rw [es _ _ ht, hp]; cases slow <;> simp [isSlow, q1]
+        · exact q2
+        · simp only []; rw [ei _ _ ht, hp]; simp [isIdle, q3]
+    · simp at e
+  | wake t =>
+    simp only [] at e
+    split at e
+    · rename_i hc
+      simp only [Option.some.injEq] at e
+      obtain ⟨rfl, rfl⟩ := Prod.mk.inj e
+      have es := cnt_upd isSlow s.workers t .woken s.n hc.1
+      have ei := cnt_upd isIdle s.workers t .woken s.n hc.1
+      have q1 := h.slowEq; have q3 := h.idleEq
+      constructor
+      · simp only []; rw [es, hc.2]; simp [isSlow, q1]
+      · exact h.slowLe
+      · simp only []; rw [ei, hc.2]; simp [isIdle, q3]
+    · simp at e
+
+theorem inv2_init (n L : Nat) : Inv2 (State.init n L) := by
+  have a : ∀ m, cnt isSlow (fun _ => WPhase.start) m = 0 := by
+    intro m; induction m with
+    | zero => rfl
+    | succ m ih => simp [cnt, ih, isSlow]
+  have b : ∀ m, cnt isIdle (fun _ => WPhase.start) m = 0 := by
+    intro m; induction m with
+    | zero => rfl
+    | succ m ih => simp [cnt, ih, isIdle]
+  constructor
+  · simp [State.init, a]
+  · simp [State.init, threshold]; omega
+  · simp [State.init, b]
+
+theorem inv12_run {s : State} (as : List Act) (h : Inv s) (h2 : Inv2 s) : Inv (run s as) ∧ Inv2 (run s as) := by
+  induction as generalizing s with
+  | nil => exact ⟨h, h2⟩
+  | cons a as ih =>
+    simp only [run]
+    split
+    · rename_i s' evs e; exact ih (inv_step h e) (inv2_step h h2 e)
+    · exact ih h h2
+
+theorem inv2_reach {n L : Nat} {s : State} (h : Reach n L s) : Inv2 s := by
+  obtain ⟨as, rfl⟩ := h
+  exact (inv12_run as (inv_init n L) (inv2_init n L)).2
+
+
+/-! ## nothing is stranded -/
+
+structure Inv3 (s : State) : Prop where
+  markerFor : s.sq ≠ [] → Ent.marker ∈ s.wq
+  asyncFor : ∀ l, (s.loops l).q ≠ [] → (s.loops l).async = true
+
+theorem signal_q (s : State) (c : Nat) : (signal s c).loops = s.loops ∧ (signal s c).wq = s.wq ∧
+    (signal s c).sq = s.sq := by
+  rcases signal_cases s c with e | ⟨w, -, e⟩ <;> simp [e]
+
+theorem inv3_signal {s : State} (c : Nat) (h : Inv3 s) : Inv3 (signal s c) := by
+  have := signal_q s c
+  constructor
+  · rw [this.2.1, this.2.2]; exact h.markerFor
+  · rw [this.1]; exact h.asyncFor
+
+theorem inv3_region {s : State} {t : Nat} (c : Nat) (hn : s.wq.Nodup) (h : Inv3 s) : Inv3 (doRegion s t c).1 := by
+  unfold doRegion
+  have sp := dq_spec (threshold s.n) s.slowRun (dqFuel s.wq) s.wq s.sq hn
+  revert sp
+  generalize dqLoop (threshold s.n) s.slowRun (dqFuel s.wq) s.wq s.sq = o
+  intro sp
+  have m := h.markerFor; have a := h.asyncFor
+  cases o with
+  | fuel => exact h
+  | wait wq' sq' =>
+    simp only [DqSpec] at sp
+    exact ⟨by simp only []; grind, a⟩
+  | take i slow wq' sq' sig =>
+    cases slow
+    · simp only [DqSpec] at sp
+      obtain ⟨e1, e0, -, -, -, -, e5⟩ := sp
+      subst e1 e0
+      simp only [Bool.false_and, Bool.false_eq_true, ↓reduceIte]
+      exact ⟨by simp only []; grind, a⟩
+    · simp only [DqSpec] at sp
+      simp only [↓reduceIte]
+      split
+      · apply inv3_signal; exact ⟨by simp only []; grind, a⟩
+      · exact ⟨by simp only []; grind, a⟩
+
+theorem inv3_step {s s' : State} {a : Act} {evs : List Ev} (hI : Inv s) (h : Inv3 s)
+    (e : step s a = some (s', evs)) : Inv3 s' := by
+  have m := h.markerFor; have aa := h.asyncFor
+  unfold step at e
+  cases a with
+  | sub l k c =>
+    simp only [] at e
+    split at e
+    · simp only [Option.some.injEq] at e
+      unfold doSub at e
+      simp only [] at e
+      (repeat' split at e) <;> obtain ⟨rfl, rfl⟩ := Prod.mk.inj e <;> (try apply inv3_signal) <;>
+        constructor <;> simp only [upd] <;> grind
+    · simp at e
+  | can l j =>
+    simp only [] at e
+    split at e
+    · simp only [Option.some.injEq] at e
+      unfold doCan1 at e
+      simp only [] at e
+      (repeat' split at e) <;> obtain ⟨rfl, rfl⟩ := Prod.mk.inj e <;> constructor <;> simp only [upd] <;> grind
+    · simp at e
+  | go l =>
+    simp only [] at e
+    split at e
+    · split at e
+      · simp only [Option.some.injEq] at e
+        unfold doCan2 at e
+        simp only [] at e
+        (repeat' split at e) <;> obtain ⟨rfl, rfl⟩ := Prod.mk.inj e <;> constructor <;> simp only [upd] <;> grind
+      · split at e
+        · simp at e
+        · simp only [Option.some.injEq] at e
+          unfold doReport at e
+          simp only [] at e
+          (repeat' split at e) <;> obtain ⟨rfl, rfl⟩ := Prod.mk.inj e <;> constructor <;> simp only [upd] <;> grind
+    · simp at e
+  | drn l =>
+    simp only [] at e
+    split at e
+    · simp only [Option.some.injEq] at e
+      unfold doDrain at e
+      obtain ⟨rfl, rfl⟩ := Prod.mk.inj e
+      constructor <;> simp only [upd] <;> grind
+    · simp at e
+  | wk t c =>
+    simp only [] at e
+    split at e
+    · unfold doWorker at e
+      split at e
+      · simp at e
+      · simp only [Option.some.injEq] at e
+        rw [← fst_of_eq e]; exact inv3_region c hI.wqNd h
+      · simp only [Option.some.injEq] at e
+        rw [← fst_of_eq e]; exact inv3_region c hI.wqNd ⟨m, aa⟩
+      · simp only [Option.some.injEq] at e
+        rw [← fst_of_eq e]; exact inv3_region c hI.wqNd ⟨m, aa⟩
+      · simp only [Option.some.injEq] at e
+        obtain ⟨rfl, rfl⟩ := Prod.mk.inj e
+        exact ⟨m, aa⟩
+      · simp only [Option.some.injEq] at e
+        obtain ⟨rfl, rfl⟩ := Prod.mk.inj e
+        constructor <;> simp only [upd] <;> grind
+    · simp at e
+  | wake t =>
+    simp only [] at e
+    split at e
+    · simp only [Option.some.injEq] at e
+      obtain ⟨rfl, rfl⟩ := Prod.mk.inj e
+      exact ⟨m, aa⟩
+    · simp at e
+
+theorem inv3_reach {n L : Nat} {s : State} (h : Reach n L s) : Inv3 s := by
+  obtain ⟨as, rfl⟩ := h
+  suffices ∀ s, Inv s → Inv3 s → Inv3 (run s as) from
+    this _ (inv_init n L) ⟨by simp [State.init], by simp [State.init, LoopSt.init]⟩
+  induction as with
+  | nil => intro s _ h3; exact h3
+  | cons a as ih =>
+    intro s h1 h3
+    simp only [run]
+    split
+    · rename_i s' evs e; exact ih s' (inv_step h1 e) (inv3_step h1 h3 e)
+    · exact ih s h1 h3
+
+
+theorem signal_items (s : State) (c : Nat) : (signal s c).items = s.items ∧ (signal s c).nItems = s.nItems ∧
+    (signal s c).loops = s.loops ∧ (signal s c).wq = s.wq ∧ (signal s c).sq = s.sq ∧ (signal s c).n = s.n ∧
+    (signal s c).slowRun = s.slowRun ∧ (signal s c).idle = s.idle := by
+  rcases signal_cases s c with e | ⟨w, -, e⟩ <;> simp [e]
+
+/-- ghost counters of an already submitted item change only together with the matching event -/
+theorem counters_frame {s s' : State} {a : Act} {evs : List Ev} (e : step s a = some (s', evs)) (i : Nat)
+    (hi : i < s.nItems) :
+    (Ev.ws i ∈ evs → (s'.items i).starts = (s.items i).starts + 1) ∧
+    (Ev.ws i ∉ evs → (s'.items i).starts = (s.items i).starts) ∧
+    ((∃ st, Ev.dn i st ∈ evs) → (s'.items i).dones = (s.items i).dones + 1) ∧
+    ((¬ ∃ st, Ev.dn i st ∈ evs) → (s'.items i).dones = (s.items i).dones) ∧
+    ((s.items i).cancelOk = true → (s'.items i).cancelOk = true) ∧
+    ((s.items i).returned = true → (s'.items i).returned = true) := by
+  unfold step at e
+  cases a with
+  | sub l k c =>
+    simp only [] at e
+    split at e
+    · simp only [Option.some.injEq] at e
+      unfold doSub at e
+      simp only [] at e
+      have hne : i ≠ s.nItems := by omega
+      (repeat' split at e) <;> obtain ⟨rfl, rfl⟩ := Prod.mk.inj e <;> simp [signal_items, upd, hne]
+    · simp at e
+  | can l j =>
+    simp only [] at e
+    split at e
+    · simp only [Option.some.injEq] at e
+      unfold doCan1 at e
+      simp only [] at e
+      (repeat' split at e) <;> obtain ⟨rfl, rfl⟩ := Prod.mk.inj e <;> simp [upd] <;> grind
+    · simp at e
+  | go l =>
+    simp only [] at e
+    split at e
+    · split at e
+      · simp only [Option.some.injEq] at e
+        unfold doCan2 at e
+        simp only [] at e
+        (repeat' split at e) <;> obtain ⟨rfl, rfl⟩ := Prod.mk.inj e <;> simp [upd] <;> grind
+      · split at e
+        · simp at e
+        · simp only [Option.some.injEq] at e
+          unfold doReport at e
+          simp only [] at e
+          (repeat' split at e) <;> obtain ⟨rfl, rfl⟩ := Prod.mk.inj e <;> simp [upd] <;> grind
+    · simp at e
+  | drn l =>
+    simp only [] at e
+    split at e
+    · simp only [Option.some.injEq] at e
+      unfold doDrain at e
+      obtain ⟨rfl, rfl⟩ := Prod.mk.inj e
+      simp
+    · simp at e
+  | wk t c =>
+    simp only [] at e
+    split at e
+    · unfold doWorker at e
+      split at e
+      · simp at e
+      all_goals (try unfold doRegion at e)
+      all_goals simp only [Option.some.injEq] at e
+      all_goals (repeat' split at e)
+      all_goals obtain ⟨rfl, rfl⟩ := Prod.mk.inj e
+      all_goals simp [signal_items, upd]
+      all_goals grind
+    · simp at e
+  | wake t =>
+    simp only [] at e
+    split at e
+    · simp only [Option.some.injEq] at e
+      obtain ⟨rfl, rfl⟩ := Prod.mk.inj e
+      simp
+    · simp at e
+
+
+/-- a work function starts only on a pool worker that dequeued the item, and only if it never started before
+    and no uv_cancel returned 0 for it -/
+theorem work_start_sound {s s' : State} {a : Act} {evs : List Ev} (h : Inv s) (e : step s a = some (s', evs))
+    {i : Nat} (hw : Ev.ws i ∈ evs) :
+    ∃ t c b, a = .wk t c ∧ t < s.n ∧ s.workers t = .got i b ∧ i < s.nItems ∧
+      (s.items i).starts = 0 ∧ (s.items i).cancelOk = false ∧ (s.items i).dones = 0 := by
+  unfold step at e
+  cases a with
+  | sub l k c =>
+    simp only [] at e
+    split at e
+    · simp only [Option.some.injEq] at e
+      unfold doSub at e
+      simp only [] at e
+      (repeat' split at e) <;> obtain ⟨rfl, rfl⟩ := Prod.mk.inj e <;> simp at hw
+    · simp at e
+  | can l j =>
+    simp only [] at e
+    split at e
+    · simp only [Option.some.injEq] at e
+      unfold doCan1 at e
+      simp only [] at e
+      (repeat' split at e) <;> obtain ⟨rfl, rfl⟩ := Prod.mk.inj e <;> simp at hw
+    · simp at e
+  | go l =>
+    simp only [] at e
+    split at e
+    · split at e
+      · simp only [Option.some.injEq] at e
+        unfold doCan2 at e
+        simp only [] at e
+        (repeat' split at e) <;> obtain ⟨rfl, rfl⟩ := Prod.mk.inj e <;> simp at hw
+      · split at e
+        · simp at e
+        · simp only [Option.some.injEq] at e
+          unfold doReport at e
+          simp only [] at e
+          (repeat' split at e) <;> obtain ⟨rfl, rfl⟩ := Prod.mk.inj e <;> simp at hw
+    · simp at e
+  | drn l =>
+    simp only [] at e
+    split at e
+    · simp only [Option.some.injEq] at e
+      unfold doDrain at e
+      obtain ⟨rfl, rfl⟩ := Prod.mk.inj e
+      simp at hw
+    · simp at e
+  | wk t c =>
+    simp only [] at e
+    split at e
+    · rename_i ht
+      unfold doWorker at e
+      split at e
+      · simp at e
+      case h_5 j slow hp =>
+        simp only [Option.some.injEq] at e
+        obtain ⟨rfl, rfl⟩ := Prod.mk.inj e
+        simp at hw
+        subst hw
+        have a1 := h.gotLoc t i slow hp
+        have a2 := h.itemOk i a1.1
+        simp only [ItemOk, a1.2] at a2
+        exact ⟨t, c, slow, rfl, ht, hp, a1.1, a2.2.2.1, a2.2.2.2.2.2, a2.2.2.2.2.1⟩
+      all_goals (try unfold doRegion at e)
+      all_goals simp only [Option.some.injEq] at e
+      all_goals (repeat' split at e)
+      all_goals obtain ⟨rfl, rfl⟩ := Prod.mk.inj e
+      all_goals simp at hw
+    · simp at e
+  | wake t =>
+    simp only [] at e
+    split at e
+    · simp only [Option.some.injEq] at e
+      obtain ⟨rfl, rfl⟩ := Prod.mk.inj e
+      simp at hw
+    · simp at e
+
+/-- a done callback happens only in the owning loop's uv__work_done, for an item whose work function returned
+    (status 0) or for which uv_cancel returned 0 (status ECANCELED, work never started), and never twice -/
+theorem done_sound {s s' : State} {a : Act} {evs : List Ev} (h : Inv s) (e : step s a = some (s', evs))
+    {i : Nat} {st : Int} (hd : Ev.dn i st ∈ evs) :
+    a = .go (s.items i).loop ∧ i < s.nItems ∧ (s.items i).dones = 0 ∧
+      (((s.items i).returned = true ∧ (s.items i).starts = 1 ∧ (s.items i).cancelOk = false ∧ st = 0) ∨
+       ((s.items i).cancelOk = true ∧ (s.items i).starts = 0 ∧ (s.items i).returned = false ∧ st = ECANCELED)) := by
+  unfold step at e
+  cases a with
+  | sub l k c =>
+    simp only [] at e
+    split at e
+    · simp only [Option.some.injEq] at e
+      unfold doSub at e
+      simp only [] at e
+      (repeat' split at e) <;> obtain ⟨rfl, rfl⟩ := Prod.mk.inj e <;> simp at hd
+    · simp at e
+  | can l j =>
+    simp only [] at e
+    split at e
+    · simp only [Option.some.injEq] at e
+      unfold doCan1 at e
+      simp only [] at e
+      (repeat' split at e) <;> obtain ⟨rfl, rfl⟩ := Prod.mk.inj e <;> simp at hd
+    · simp at e
+  | go l =>
+    simp only [] at e
+    split at e
+    · split at e
+      · simp only [Option.some.injEq] at e
+        unfold doCan2 at e
+        simp only [] at e
+        (repeat' split at e) <;> obtain ⟨rfl, rfl⟩ := Prod.mk.inj e <;> simp at hd
+      · split at e
+        · simp at e
+        · simp only [Option.some.injEq] at e
+          unfold doReport at e
+          simp only [] at e
+          split at e
+          · obtain ⟨rfl, rfl⟩ := Prod.mk.inj e; simp at hd
+          · rename_i j rest hl
+            obtain ⟨rfl, rfl⟩ := Prod.mk.inj e
+            simp at hd
+            obtain ⟨rfl, rfl⟩ := hd
+            have a1 := h.lqLoc l i (Or.inr (by simp [hl]))
+            have a2 := h.itemOk i a1.1
+            simp only [ItemOk, a1.2.1] at a2
+            refine ⟨by rw [a1.2.2], a1.1, a2.2.1, ?_⟩
+            rcases a2.2.2 with ⟨w, x, y, z⟩ | ⟨w, x, y, z⟩
+            · left; simp [w, x, y, z]
+            · right; simp [w, x, y, z]
+    · simp at e
+  | drn l =>
+    simp only [] at e
+    split at e
+    · simp only [Option.some.injEq] at e
+      unfold doDrain at e
+      obtain ⟨rfl, rfl⟩ := Prod.mk.inj e
+      simp at hd
+    · simp at e
+  | wk t c =>
+    simp only [] at e
+    split at e
+    · unfold doWorker at e
+      split at e
+      · simp at e
+      all_goals (try unfold doRegion at e)
+      all_goals simp only [Option.some.injEq] at e
+      all_goals (repeat' split at e)
+      all_goals obtain ⟨rfl, rfl⟩ := Prod.mk.inj e
+      all_goals simp at hd
+    · simp at e
+  | wake t =>
+    simp only [] at e
+    split at e
+    · simp only [Option.some.injEq] at e
+      obtain ⟨rfl, rfl⟩ := Prod.mk.inj e
+      simp at hd
+    · simp at e
+
+
+/-- "in a queue and not started", in terms of the real queues: the global queue, the slow-I/O queue, or the
+    loop's completion queue as an already cancelled request -/
+def QueuedNotStarted (s : State) (i : Nat) : Prop :=
+  Ent.item i ∈ s.wq ∨ i ∈ s.sq ∨
+  ((i ∈ (s.loops (s.items i).loop).q ∨ i ∈ (s.loops (s.items i).loop).lq) ∧ (s.items i).work = .cancelled)
+
+theorem cancel_region1 {s s' : State} {l i : Nat} {evs : List Ev} (h : Inv s)
+    (e : step s (.can l i) = some (s', evs)) :
+    ∃ ok, (s'.loops l).cmid = some (i, ok) ∧ (ok = true ↔ QueuedNotStarted s i) ∧
+      (ok = true → (s.items i).starts = 0 ∧ Ent.item i ∉ s'.wq ∧ i ∉ s'.sq ∧ (s'.items i).starts = 0) ∧
+      (ok = false → s'.items = s.items ∧ s'.wq = s.wq ∧ s'.sq = s.sq ∧ s'.workers = s.workers ∧
+        s'.slowRun = s.slowRun ∧ s'.idle = s.idle ∧ (s'.loops l).q = (s.loops l).q ∧
+        (s'.loops l).lq = (s.loops l).lq ∧ (s'.loops l).async = (s.loops l).async ∧
+        ∀ l', l' ≠ l → s'.loops l' = s.loops l') := by
+  unfold step at e
+  simp only [] at e
+  split at e
+  · rename_i hc
+    obtain ⟨-, hrdy, hi, hl, hd⟩ := hc
+    have hcm : (s.loops l).cmid = none := by simp [loopReady] at hrdy; exact hrdy.1
+    simp only [Option.some.injEq] at e
+    unfold doCan1 at e
+    simp only [] at e
+    have a := h.itemOk i hi
+    have b := h.cmRev i hi
+    have f1 := h.wqLoc i; have f2 := h.sqLoc i; have f3 := h.lqLoc l i
+    have r1 := h.wqRev i hi; have r2 := h.sqRev i hi; have r3 := h.lqRev i hi
+    have n1 := h.wqNd; have n2 := h.sqNd
+    simp only [ItemOk] at a
+    split at e
+    · rename_i hok
+      simp only [Bool.and_eq_true, decide_eq_true_eq] at hok
+      obtain ⟨rfl, rfl⟩ := Prod.mk.inj e
+      refine ⟨true, by simp [upd], ?_, ?_, by simp⟩
+      · simp only [QueuedNotStarted, true_iff]
+        split at a <;> grind
+      · intro _
+        simp only [upd]
+        split at a <;> grind
+    · rename_i hok
+      simp only [Bool.and_eq_true, decide_eq_true_eq, not_and] at hok
+      obtain ⟨rfl, rfl⟩ := Prod.mk.inj e
+      refine ⟨false, by simp [upd], ?_, by simp, ?_⟩
+      · simp only [QueuedNotStarted, Bool.false_eq_true, false_iff]
+        split at a <;> grind
+      · intro _
+        simp only [upd]
+        grind
+  · simp at e
+
+theorem cancel_region2 {s s' : State} {l i : Nat} {ok : Bool} {evs : List Ev}
+    (e : step s (.go l) = some (s', evs)) (hc : (s.loops l).cmid = some (i, ok)) :
+    (∀ v, Ev.ret v ∈ evs ↔ v = (if ok then 0 else EBUSY)) ∧
+    (ok = true → (s'.items i).cancelOk = true ∧ (s'.items i).work = .cancelled ∧ i ∈ (s'.loops l).q ∧
+      (s'.loops l).async = true ∧ (s'.items i).starts = (s.items i).starts) ∧
+    (ok = false → s'.items = s.items ∧ s'.wq = s.wq ∧ s'.sq = s.sq ∧ s'.workers = s.workers ∧
+      s'.slowRun = s.slowRun ∧ s'.idle = s.idle ∧ (s'.loops l).q = (s.loops l).q ∧
+      (s'.loops l).lq = (s.loops l).lq) := by
+  unfold step at e
+  simp only [] at e
+  split at e
+  · simp only [hc, Option.some.injEq] at e
+    unfold doCan2 at e
+    simp only [] at e
+    split at e
+    · rename_i hok; subst hok
+      obtain ⟨rfl, rfl⟩ := Prod.mk.inj e
+      simp [upd]
+    · rename_i hok
+      simp only [Bool.not_eq_true] at hok; subst hok
+      obtain ⟨rfl, rfl⟩ := Prod.mk.inj e
+      simp [upd, EBUSY]
+  · simp at e
+
+
+theorem nItems_mono {s s' : State} {a : Act} {evs : List Ev} (e : step s a = some (s', evs)) :
+    s.nItems ≤ s'.nItems := by
+  unfold step at e
+  cases a with
+  | sub l k c =>
+    simp only [] at e
+    split at e
+    · simp only [Option.some.injEq] at e
+      unfold doSub at e
+      simp only [] at e
+      (repeat' split at e) <;> obtain ⟨rfl, rfl⟩ := Prod.mk.inj e <;> simp [signal_items]
+    · simp at e
+  | can l j =>
+    simp only [] at e
+    split at e
+    · simp only [Option.some.injEq] at e
+      unfold doCan1 at e
+      simp only [] at e
+      (repeat' split at e) <;> obtain ⟨rfl, rfl⟩ := Prod.mk.inj e <;> simp
+    · simp at e
+  | go l =>
+    simp only [] at e
+    split at e
+    · split at e
+      · simp only [Option.some.injEq] at e
+        unfold doCan2 at e
+        simp only [] at e
+        (repeat' split at e) <;> obtain ⟨rfl, rfl⟩ := Prod.mk.inj e <;> simp
+      · split at e
+        · simp at e
+        · simp only [Option.some.injEq] at e
+          unfold doReport at e
+          simp only [] at e
+          (repeat' split at e) <;> obtain ⟨rfl, rfl⟩ := Prod.mk.inj e <;> simp
+    · simp at e
+  | drn l =>
+    simp only [] at e
+    split at e
+    · simp only [Option.some.injEq] at e
+      unfold doDrain at e
+      obtain ⟨rfl, rfl⟩ := Prod.mk.inj e
+      simp
+    · simp at e
+  | wk t c =>
+    simp only [] at e
+    split at e
+    · unfold doWorker at e
+      split at e
+      · simp at e
+      all_goals (try unfold doRegion at e)
+      all_goals simp only [Option.some.injEq] at e
+      all_goals (repeat' split at e)
+      all_goals obtain ⟨rfl, rfl⟩ := Prod.mk.inj e
+      all_goals simp [signal_items]
+    · simp at e
+  | wake t =>
+    simp only [] at e
+    split at e
+    · simp only [Option.some.injEq] at e
+      obtain ⟨rfl, rfl⟩ := Prod.mk.inj e
+      simp
+    · simp at e
+
+theorem cancelOk_run {s : State} (as : List Act) {i : Nat} (hi : i < s.nItems)
+    (hc : (s.items i).cancelOk = true) : i < (run s as).nItems ∧ ((run s as).items i).cancelOk = true := by
+  induction as generalizing s with
+  | nil => exact ⟨hi, hc⟩
+  | cons a as ih =>
+    simp only [run]
+    split
+    · rename_i s' evs e
+      exact ih (Nat.lt_of_lt_of_le hi (nItems_mono e)) ((counters_frame e i hi).2.2.2.2.1 hc)
+    · exact ih hi hc
+
+theorem reach_run {n L : Nat} {s : State} (h : Reach n L s) (as : List Act) : Reach n L (run s as) := by
+  obtain ⟨bs, rfl⟩ := h
+  refine ⟨bs ++ as, ?_⟩
+  generalize State.init n L = s0
+  induction bs generalizing s0 with
+  | nil => rfl
+  | cons b bs ih => simp only [run, List.cons_append]; split <;> exact ih _
+
+
+/-! ## no lost wake-up -/
+
+def Takeable (wq : List Ent) (r T : Int) : Prop := wq ≠ [] ∧ ¬(wq = [.marker] ∧ r ≥ T)
+def Awake (s : State) : Prop := ∃ t, t < s.n ∧ s.workers t ≠ .waiting
+/-- no lost wake-up: if a worker may take work, some worker is not parked in uv_cond_wait -/
+def Inv5 (s : State) : Prop := Takeable s.wq s.slowRun (threshold s.n) → Awake s
+
+theorem signal_awake (s : State) (c : Nat) (h1 : 1 ≤ s.n) : Awake (signal s c) := by
+  by_cases ha : Awake s
+  · obtain ⟨t, ht, hw⟩ := ha
+    rcases signal_cases' s c with e | ⟨w, hw', hp, e⟩
+    · rw [e]; exact ⟨t, ht, hw⟩
+    · rw [e]; refine ⟨t, ht, ?_⟩; simp only [upd]; split <;> simp_all
+  · have hall : ∀ t, t < s.n → s.workers t = .waiting := by
+      intro t ht; by_cases e : s.workers t = .waiting
+      · exact e
+      · exact absurd ⟨t, ht, e⟩ ha
+    have hmem : 0 ∈ waiters s := by simp [waiters, hall 0 (by omega)]; omega
+    unfold signal
+    simp only []
+    have hlen : 0 < (waiters s).length := List.length_pos_of_mem hmem
+    have : (c % (waiters s).length) < (waiters s).length := Nat.mod_lt _ hlen
+    rw [List.getElem?_eq_getElem this]
+    simp only []
+    have hm : (waiters s)[c % (waiters s).length] ∈ waiters s := List.getElem_mem this
+    have hr := List.mem_range.mp (List.mem_filter.mp hm).1
+    exact ⟨_, hr, by simp [upd]⟩
+
+theorem cnt_eq_zero {α : Type} (p : α → Bool) (w : Nat → α) (n : Nat) (h : cnt p w n = 0) :
+    ∀ t, t < n → p (w t) = false := by
+  induction n with
+  | zero => intro t ht; omega
+  | succ n ih =>
+    simp only [cnt] at h
+    intro t ht
+    by_cases e : t = n
+    · subst e; by_cases q : p (w t) = true
+      · simp [q] at h
+      · simpa using q
+    · exact ih (by omega) t (by omega)
+
+theorem takeable_erase {wq : List Ent} {i : Nat} {r T : Int} (h : Takeable (wq.erase (.item i)) r T) :
+    Takeable wq r T := by
+  unfold Takeable at *
+  grind
+
+theorem inv5_region {s : State} {t : Nat} (c : Nat) (hn : s.wq.Nodup) (ht : t < s.n) :
+    Inv5 (doRegion s t c).1 := by
+  unfold doRegion
+  have sp := dq_spec (threshold s.n) s.slowRun (dqFuel s.wq) s.wq s.sq hn
+  have hf := dq_fuel (threshold s.n) s.slowRun (dqFuel s.wq) s.wq s.sq hn (by simp [dqFuel])
+  revert sp hf
+  generalize dqLoop (threshold s.n) s.slowRun (dqFuel s.wq) s.wq s.sq = o
+  intro sp hf
+  cases o with
+  | fuel => exact absurd rfl hf
+  | wait wq' sq' =>
+    simp only [DqSpec] at sp
+    intro tk
+    simp only [Takeable] at tk
+    grind
+  | take i slow wq' sq' sig =>
+    intro _
+    simp only []
+    split
+    · apply signal_awake; simp only []; omega
+    · exact ⟨t, ht, by simp [upd]⟩
+
+theorem inv5_step {s s' : State} {a : Act} {evs : List Ev} (hI : Inv s) (h2 : Inv2 s) (h : Inv5 s)
+    (h1 : 1 ≤ s.n) (e : step s a = some (s', evs)) : Inv5 s' := by
+  unfold step at e
+  cases a with
+  | sub l k c =>
+    simp only [] at e
+    split at e
+    · simp only [Option.some.injEq] at e
+      unfold doSub at e
+      simp only [] at e
+      have hz : ¬ s.idle > 0 → Awake s := by
+        intro hi
+        have := h2.idleEq
+        have := cnt_eq_zero isIdle s.workers s.n (by omega) 0 (by omega)
+        refine ⟨0, by omega, ?_⟩
+        intro hw; simp [hw, isIdle] at this
+      (repeat' split at e) <;> obtain ⟨rfl, rfl⟩ := Prod.mk.inj e
+      · exact h
+      · intro _; exact signal_awake _ c h1
+      · rename_i hi; intro _; exact hz hi
+      · intro _; exact signal_awake _ c h1
+      · rename_i hi; intro _; exact hz hi
+    · simp at e
+  | can l j =>
+    simp only [] at e
+    split at e
+    · simp only [Option.some.injEq] at e
+      unfold doCan1 at e
+      simp only [] at e
+      (repeat' split at e) <;> obtain ⟨rfl, rfl⟩ := Prod.mk.inj e
+      · intro tk; exact h (takeable_erase tk)
+      · exact h
+    · simp at e
+  | go l =>
+    simp only [] at e
+    split at e
+    · split at e
+      · simp only [Option.some.injEq] at e
+        unfold doCan2 at e
+        simp only [] at e
+        (repeat' split at e) <;> obtain ⟨rfl, rfl⟩ := Prod.mk.inj e <;> exact h
+      · split at e
+        · simp at e
+        · simp only [Option.some.injEq] at e
+          unfold doReport at e
+          simp only [] at e
+          (repeat' split at e) <;> obtain ⟨rfl, rfl⟩ := Prod.mk.inj e <;> exact h
+    · simp at e
+  | drn l =>
+    simp only [] at e
+    split at e
+    · simp only [Option.some.injEq] at e
+      unfold doDrain at e
+      obtain ⟨rfl, rfl⟩ := Prod.mk.inj e
+      exact h
+    · simp at e
+  | wk t c =>
+    simp only [] at e
+    split at e
+    · rename_i ht
+      unfold doWorker at e
+      split at e
+      · simp at e
+      · simp only [Option.some.injEq] at e
+        rw [← fst_of_eq e]; exact inv5_region c hI.wqNd ht
+      · simp only [Option.some.injEq] at e
+        rw [← fst_of_eq e]; exact inv5_region c hI.wqNd ht
+      · simp only [Option.some.injEq] at e
+        rw [← fst_of_eq e]; exact inv5_region c hI.wqNd ht
+      · simp only [Option.some.injEq] at e
+        obtain ⟨rfl, rfl⟩ := Prod.mk.inj e
+        intro _; exact ⟨t, ht, by simp [upd]⟩
+      · simp only [Option.some.injEq] at e
+        obtain ⟨rfl, rfl⟩ := Prod.mk.inj e
+        intro _; exact ⟨t, ht, by simp [upd]⟩
+    · simp at e
+  | wake t =>
+    simp only [] at e
+    split at e
+    · rename_i hc
+      simp only [Option.some.injEq] at e
+      obtain ⟨rfl, rfl⟩ := Prod.mk.inj e
+      intro _; exact ⟨t, hc.1, by simp [upd]⟩
+    · simp at e
+
+theorem n_const {s s' : State} {a : Act} {evs : List Ev} (e : step s a = some (s', evs)) : s'.n = s.n := by
+  unfold step at e
+  cases a with
+  | sub l k c =>
+    simp only [] at e
+    split at e
+    · simp only [Option.some.injEq] at e
+      unfold doSub at e
+      simp only [] at e
+      (repeat' split at e) <;> obtain ⟨rfl, rfl⟩ := Prod.mk.inj e <;> simp [signal_items]
+    · simp at e
+  | can l j =>
+    simp only [] at e
+    split at e
+    · simp only [Option.some.injEq] at e
+      unfold doCan1 at e
+      simp only [] at e
+      (repeat' split at e) <;> obtain ⟨rfl, rfl⟩ := Prod.mk.inj e <;> simp
+    · simp at e
+  | go l =>
+    simp only [] at e
+    split at e
+    · split at e
+      · simp only [Option.some.injEq] at e
+        unfold doCan2 at e
+        simp only [] at e
+        (repeat' split at e) <;> obtain ⟨rfl, rfl⟩ := Prod.mk.inj e <;> simp
+      · split at e
+        · simp at e
+        · simp only [Option.some.injEq] at e
+          unfold doReport at e
+          simp only [] at e
+          (repeat' split at e) <;> obtain ⟨rfl, rfl⟩ := Prod.mk.inj e <;> simp
+    · simp at e
+  | drn l =>
+    simp only [] at e
+    split at e
+    · simp only [Option.some.injEq] at e
+      unfold doDrain at e
+      obtain ⟨rfl, rfl⟩ := Prod.mk.inj e
+      simp
+    · simp at e
+  | wk t c =>
+    simp only [] at e
+    split at e
+    · unfold doWorker at e
+      split at e
+      · simp at e
+      all_goals (try unfold doRegion at e)
+      all_goals simp only [Option.some.injEq] at e
+      all_goals (repeat' split at e)
+      all_goals obtain ⟨rfl, rfl⟩ := Prod.mk.inj e
+      all_goals simp [signal_items]
+    · simp at e
+  | wake t =>
+    simp only [] at e
+    split at e
+    · simp only [Option.some.injEq] at e
+      obtain ⟨rfl, rfl⟩ := Prod.mk.inj e
+      simp
+    · simp at e
+
+theorem inv5_reach {n L : Nat} {s : State} (h1 : 1 ≤ n) (h : Reach n L s) : Inv5 s ∧ s.n = n := by
+  obtain ⟨as, rfl⟩ := h
+  suffices ∀ s, Inv s → Inv2 s → Inv5 s → s.n = n → Inv5 (run s as) ∧ (run s as).n = n from
+    this _ (inv_init n L) (inv2_init n L) (by intro tk; simp [Takeable, State.init] at tk) rfl
+  induction as with
+  | nil => intro s _ _ h5 hn; exact ⟨h5, hn⟩
+  | cons a as ih =>
+    intro s hI h2 h5 hn
+    simp only [run]
+    split
+    · rename_i s' evs e
+      exact ih s' (inv_step hI e) (inv2_step hI h2 e) (inv5_step hI h2 h5 (by omega) e) (by rw [n_const e, hn])
+    · exact ih s hI h2 h5 hn
+
 end UvModel.Tpool
